@@ -57,6 +57,12 @@ CHECKS = {
     "C15": ("metamorphic monitor: original vs. rewritten source through the rewriter's instruction map",
             "exploration over fragment programs x compositions of the listed rewrites",
             "rewriters of vt/gen/rewrite.py, cross-checked per case with the reference interpreter", "5/C15"),
+    "C10": ("concrete multi-member-group soundness monitor on gtxn_context / absolute_context / relative_context",
+            "exploration over programs reading other members by absolute index and by offset x groups with independent per-member valuations",
+            "trusts vt/ref/avm.py; 'impossible index' taken from the block's own group_indices", "5/C10"),
+    "C13": ("concrete group-semantics oracle over generated YAML configurations vs. GroupTransactionOutput; degenerate configurations vs. single-contract verdicts",
+            "exploration over configurations of 1-3 transactions (absolute indices, offsets of both signs, types) x concrete groups",
+            "trusts vt/ref/avm.py; generated contracts avoid the constructs of the known findings; the precision direction is checked for one-transaction configurations only", "5/C13"),
 }
 
 
